@@ -55,6 +55,10 @@ type Case struct {
 	// StallMS: the receiving side only starts to read after this long (a busy
 	// or stopped peer): senders wait, nothing is lost or damaged.
 	StallMS int `json:"stall_ms,omitempty"`
+	// CloseAfter: once every Send has returned, the sending side closes the
+	// connection at once (no closing message is awaited): what was sent before
+	// the close still arrives, all of it, before the receiving handlers are closed
+	CloseAfter bool `json:"close_after,omitempty"`
 }
 
 func transports() []string {
@@ -87,6 +91,9 @@ func genCase(t *rapid.T) Case {
 		})
 	}
 	c.Yield = rapid.IntRange(0, 3).Draw(t, "yield")
+	if c.Transport != "script" && rapid.IntRange(0, 2).Draw(t, "closeafter") == 0 {
+		c.CloseAfter = true
+	}
 	if rapid.IntRange(0, 3).Draw(t, "failedfirst") == 0 {
 		c.FailedSends = rapid.IntRange(1, 40).Draw(t, "failedsends")
 	}
@@ -374,8 +381,10 @@ func checkCase(c Case) error {
 	if e := sendErr.Load(); e != nil {
 		return vt.Violationf("C10:send-error:"+c.Transport, "%v", e)
 	}
-	// barrier: once it arrives, every earlier message has been dispatched to every handler
-	if err := a.Send(qnet.NewMessage(qnet.NewHeader(qnet.Event, barrierService, 0, 0, 0), nil)); err != nil {
+	if c.CloseAfter {
+		a.Close()
+	} else if err := a.Send(qnet.NewMessage(qnet.NewHeader(qnet.Event, barrierService, 0, 0, 0), nil)); err != nil {
+		// barrier: once it arrives, every earlier message has been dispatched to every handler
 		return vt.Violationf("C10:send-error:"+c.Transport, "barrier: %v", err)
 	}
 	var order []*qnet.Message
@@ -384,6 +393,12 @@ collect:
 	for {
 		select {
 		case m, ok := <-arrival:
+			if !ok && c.CloseAfter {
+				if len(order) != total {
+					return vt.Violationf("C10:lost:"+c.Transport+":sender-closed", "the sender closed the connection after its %d sends had returned; the receiving handler was closed having received %d of them", total, len(order))
+				}
+				break collect
+			}
 			if !ok {
 				return vt.Violationf("C10:connection-closed:"+c.Transport, "the receiving endpoint closed after %d of %d messages (a corrupt frame closes the endpoint)", len(order), total)
 			}
@@ -473,6 +488,9 @@ collect:
 	}
 	if c.StallMS > 0 {
 		labels = append(labels, "peer-stalled")
+	}
+	if c.CloseAfter {
+		labels = append(labels, "sender-closes-right-after-its-sends")
 	}
 	k, _ := json.Marshal(c)
 	vt.Case(nontrivial, string(k), labels...)
